@@ -149,3 +149,22 @@ def tlc_proto(tmp: Path, progs, types, cfg: str, *, shards=1, workers=None, time
 
 def default_corpus():
     return hand_corpus()
+
+
+def full_corpus(tmp: Path, tier: str, n_generated=None):
+    """Hand-written regression corpus + a seeded sample of the well-formed, non-degenerate programs SpecGen builds
+    (<= 3 instructions, nesting depth <= 2).  Generated programs are named G000...; rt=True there means 'to be classified
+    by the model' (MC_Proto reports rt_ok per behaviour instead of asserting PRoundTrip)."""
+    import random
+    from .common import seed
+    from .specgen import programs
+    progs = hand_corpus()
+    sg, _ = programs(tmp, n=3, depth=2, violating=False)
+    valid = [p for p in sg if not p["violations"] and not p["degenerate"]]
+    valid.sort(key=lambda p: json.dumps(p["code"], sort_keys=True))
+    k = n_generated if n_generated is not None else (150 if tier == "quick" else 1500)
+    rng = random.Random(seed() * 31 + 5)
+    pick = valid if len(valid) <= k else rng.sample(valid, k)
+    for i, p in enumerate(pick):
+        progs.append({"name": f"G{i:04d}", "kind": "struct", "dir": "net", "family": "", "action": "", "code": p["code"], "rt": True, "gen": True})
+    return progs
